@@ -2,7 +2,22 @@
 (exhaustively for short histories, by simulation for long ones), checks the spec-level invariants and prints every
 history with the expected root TERM and query walks; the harness replays each history on the real trie
 (2-byte keys and 32/38-byte embeddings), folds the term with SHA-256, compares roots after every batch, proves
-and verifies query sets and checks that tampered proofs whose claim disagrees with the map are rejected."""
+and verifies query sets and checks that tampered proofs whose claim disagrees with the map are rejected.
+
+Steps beyond plain batches (all of them actions of SMT.tla): the EMPTY batch (root unchanged), Reopen in the middle of a
+history, batches naming one key twice (DupUpdate: either operation may win - the spec step is nondeterministic, the
+entry carries both roots).  The simulation uses the WEIGHTED next-state relation NextW so that these steps are really
+generated; the replayer additionally inserts Reopen / Update(EmptyBatch) - enabled in every state, map unchanged - before
+steps of the exhaustive histories.  Store flavours: write-through map, pebble, and a store with the semantics of
+pkg/db/batchdb (reads see the committed records only; Set/Del queued until Update has returned).  Query sets: singles,
+pairs, triples, the whole universe, sets of 4-7 keys, a set naming a key twice.  Wide maps (hundreds of 32-byte keys, whole
+8-bit subtrees, a comb branching at every byte level): mixed batches, collapse of a dense subtree to one leaf, of the map
+to the empty map, refill; proofs with claims compared with the map and tampered claims.
+
+Not flagged (outside the statement): Verify/CalculateRoot do not require that every sibling hash of a proof is consumed,
+so a valid proof with junk hashes APPENDED still verifies.  Every claim of such a proof is still true of the map; the
+statement forbids accepted proofs whose CLAIM disagrees with the map, not a second encoding of a true claim (malleability,
+not unsoundness).  The replayer counts the observation (cover.appended_junk_sibling_still_verifies) and never reports it."""
 import json, os
 import common
 from common import Inconclusive, finish, log
@@ -12,8 +27,9 @@ LEVEL = "model_checking"
 KEYS6 = [0, 1, 256, 32768, 32769, 65535]
 KEYS10 = [0, 1, 255, 256, 128, 32767, 32768, 32769, 33023, 65535]
 
-def one(ctx, binp, name, cfgtext, keytab, **kw):
+def one(ctx, binp, name, cfgtext, keytab, wide=True, **kw):
     cfg = c01.write_cfg(ctx, name, cfgtext)
+    henv = {"VERIF_C10_WIDE": "1" if wide else "0"}
     r = ctx.tlc("MCSMT", cfg, timeout=kw.pop("timeout", 1800), seed=ctx.seed if kw.get("simulate") else None, **kw)
     if r["violation"]:
         raise Inconclusive("SMT.tla invariant fails at spec level: %s" % r["outpath"])
@@ -27,7 +43,7 @@ def one(ctx, binp, name, cfgtext, keytab, **kw):
                 continue
             seen.add(k); fh.write(json.dumps(t) + "\n"); n += 1
     of = ctx.path(name + "_res.json")
-    p = ctx.run([binp, hf, of, "16", json.dumps(keytab)], timeout=3000)
+    p = ctx.run([binp, hf, of, "16", json.dumps(keytab)], timeout=3000, env=henv)
     if p.returncode != 0 or not os.path.exists(of):
         rp = common.real_code_panic(p.stderr)
         if rp:
@@ -35,15 +51,20 @@ def one(ctx, binp, name, cfgtext, keytab, **kw):
             # the stack shows real code - the histories of this run are the replay
             # pin the crash to one history: serial re-run, the harness announces each history before it starts it
             import re
-            p2 = ctx.run([binp, hf, of, "16", json.dumps(keytab)], timeout=3000, env={"VERIF_SERIAL": "1"})
-            idx = re.findall(r"^HIST (\d+)$", p2.stderr or "", re.M)
+            p2 = ctx.run([binp, hf, of, "16", json.dumps(keytab)], timeout=3000, env=dict(henv, VERIF_SERIAL="1"))
+            marks = re.findall(r"^(HIST|WIDE) (\S+)$", p2.stderr or "", re.M)
             hist = None
+            idx = [m[1] for m in marks if m[0] == "HIST"]
+            if p2.returncode != 0 and marks and marks[-1][0] == "WIDE":
+                ctx.violation("crash:" + rp[0], "%s in %s on the wide map %s: the trie crashes the process" % (rp[1], rp[0], marks[-1][1]),
+                              dict(wide=marks[-1][1], seed=ctx.seed, stack=p.stderr[:1200]))
+                return dict(violations=[], crashed=True, cover={})
             if p2.returncode != 0 and idx:
                 hist = json.loads(open(hf).read().splitlines()[int(idx[-1])])
             ctx.violation("crash:" + rp[0], "%s in %s while replaying a TLC-generated history (%s): the trie crashes the process" % (rp[1], rp[0], name),
-                          dict(history=hist, stack=p.stderr[:1200]) if hist else dict(histories_file=os.path.basename(hf), stack=p.stderr[:1200]))
+                          dict(history=hist, hi=int(idx[-1]), seed=ctx.seed, stack=p.stderr[:1200]) if hist else dict(histories_file=os.path.basename(hf), stack=p.stderr[:1200]))
             return dict(histories=0, roots_compared=0, distinct_maps=0, proofs_verified=0, tampered_proofs_rejected=0, other_root_rejected=0,
-                        violations=[], samples=[], crashed=True)
+                        violations=[], samples=[], crashed=True, cover={})
         raise Inconclusive("c10 harness failed: " + p.stderr[-1500:])
     res = json.load(open(of))
     if res.get("harness_errors"):
@@ -57,20 +78,32 @@ def run(ctx):
     binp = ctx.go_build("./cmd/c10")
     if ctx.replay:
         d = json.load(open(ctx.replay))["replay"]
+        renv = {}
+        if isinstance(d, dict) and d.get("seed") is not None:
+            renv["VERIF_SEED"] = str(d["seed"])     # the random choices of the replayer (batch order, inserted steps, query sets)
         if isinstance(d, dict) and "wide" in d:
             # a wide-map case: the harness runs them after the histories; an empty history file suffices
             hf = ctx.path("replay_h.ndjson"); open(hf, "w").write("")
             of = ctx.path("replay_res.json")
-            ctx.run([binp, hf, of, "16", json.dumps(KEYS10)])
+            ctx.run([binp, hf, of, "16", json.dumps(KEYS10)], env=renv)
             res = json.load(open(of))
             for v in res.get("violations") or []:
                 ctx.violation(v["key"], v["what"], v.get("replay"))
             finish(ctx, LEVEL, dict(traces_validated_against_impl=res.get("wide_maps_checked", 0), samples=[d]))
         hist = d["history"] if isinstance(d, dict) and "history" in d else d
+        if isinstance(d, dict) and d.get("hi") is not None:
+            renv["VERIF_C10_HI"] = str(d["hi"])     # position in the run: embedding and store flavour depend on it
+        renv["VERIF_C10_WIDE"] = "0"
         hf = ctx.path("replay_h.ndjson"); open(hf, "w").write(json.dumps(hist) + "\n")
         of = ctx.path("replay_res.json")
         kt = KEYS6 if len(hist[0]["q"]) == 6 else KEYS10
-        ctx.run([binp, hf, of, "16", json.dumps(kt)])
+        p = ctx.run([binp, hf, of, "16", json.dumps(kt)], env=renv)
+        if not os.path.exists(of):
+            rp = common.real_code_panic(p.stderr)
+            if rp:
+                ctx.violation("crash:" + rp[0], "%s in %s while replaying the history: the trie crashes the process" % (rp[1], rp[0]), d)
+                finish(ctx, LEVEL, dict(traces_validated_against_impl=1, samples=[hist[:1]]))
+            raise Inconclusive("c10 harness failed: " + p.stderr[-1500:])
         res = json.load(open(of))
         for v in res.get("violations") or []:
             ctx.violation(v["key"], v["what"], v.get("replay"))
@@ -78,26 +111,42 @@ def run(ctx):
     runs = []
     if ctx.tier == "quick":
         runs.append(("exh", c01.cfg_text("SMT_q"), KEYS6, dict(workers=8)))
-        runs.append(("sim", c01.cfg_text("SMT_sim"), KEYS10, dict(workers=1, simulate=250, depth=10)))
+        runs.append(("sim", c01.cfg_text("SMT_sim"), KEYS10, dict(workers=1, simulate=200, depth=14)))
     else:
         runs.append(("exh2", c01.cfg_text("SMT_q", DumpEvery=1), KEYS6, dict(workers=8)))
         runs.append(("exh3", c01.cfg_text("SMT_q", Depth=3, NV=1, DumpEvery=40), KEYS6, dict(workers=16, timeout=3000)))
-        runs.append(("sim", c01.cfg_text("SMT_sim", Depth=10), KEYS10, dict(workers=1, simulate=4000, depth=12, timeout=3000)))
+        runs.append(("sim", c01.cfg_text("SMT_sim", Depth=14), KEYS10, dict(workers=1, simulate=4000, depth=16, timeout=3000)))
     tot = dict(wide_maps_checked=0, histories=0, steps=0, roots_compared=0, distinct_maps=0, proofs_verified=0, tampered_proofs_rejected=0, other_root_rejected=0)
+    cover = {}
     sample = None
-    for name, text, kt, kw in runs:
-        res = one(ctx, binp, name, text, kt, **kw)
+    for n, (name, text, kt, kw) in enumerate(runs):
+        # the wide maps do not depend on the histories: once, with the last run
+        res = one(ctx, binp, name, text, kt, wide=(n == len(runs) - 1), **kw)
         for k in tot:
             tot[k] += res.get(k, 0)
+        for k, v in (res.get("cover") or {}).items():
+            cover[k] = cover.get(k, 0) + v
         for v in res.get("violations") or []:
             ctx.violation(v["key"], v["what"], v.get("replay"))
         if sample is None:
             sample = dict(config=name, keytab=kt)
-    if not ctx.violations and (tot["proofs_verified"] < 100 or tot["tampered_proofs_rejected"] < 100 or tot["wide_maps_checked"] < 4):
+    if not ctx.violations and (tot["proofs_verified"] < 100 or tot["tampered_proofs_rejected"] < 100 or tot["wide_maps_checked"] < 5):
         raise Inconclusive("too few proofs exercised: vacuous")
+    # non-vacuity of the added scenarios: a run in which one of them never (or hardly ever) happened proves nothing about it
+    need = dict(empty_batch_on_populated_trie=50, reopen_then_update=50, dup_steps=20, dup_followed=5, histories_on_batch_store=50,
+                sets_full=100, sets_big=100, sets_repeat=100, tampers_in_large_sets_rejected=500, wrong_length_tampers_rejected=500,
+                wide_proofs_verified=30, wide_tampered_rejected=60, wide_mixed_batches=5, wide_subtree_collapsed_to_leaf=5,
+                wide_emptied_and_refilled=5, wide_long_lived_trie=1, wide_reopened_every_step=1, wide_on_production_batchdb=1)
+    short = {k: cover.get(k, 0) for k, n in need.items() if cover.get(k, 0) < n}
+    if not ctx.violations and short:
+        raise Inconclusive("scenarios not (or hardly) exercised, vacuous: %s (needed %s)" % (short, {k: need[k] for k in short}))
     cov = dict(wide_maps_checked=tot.get("wide_maps_checked", 0), traces_validated_against_impl=tot["histories"], samples=[sample], replayed_batches=tot["steps"],
                roots_compared=tot["roots_compared"], distinct_maps=tot["distinct_maps"], honest_proofs_verified=tot["proofs_verified"],
                disagreeing_tampered_proofs_rejected=tot["tampered_proofs_rejected"], disagreeing_other_root_rejected=tot["other_root_rejected"],
-               rule="TLC state = (map, history); every dumped history is replayed on the real trie with 4 key embeddings and 2 stores")
+               scenarios=cover,
+               rule="TLC state = (map, history); every dumped history is replayed on the real trie with one of 4 key embeddings and one of 3 stores")
     finish(ctx, LEVEL, cov, assumptions=["SHA-256 is injective on the terms that occur", "keys are 16-bit patterns embedded into 2/32/38-byte keys",
-                                         "duplicate keys inside one batch are not generated", "SetSubtreeHeight (dead API) is not exercised"])
+                                         "values are 32 bytes long (the stored subtree format holds hashes)",
+                                         "a batch names a key at most twice; which of the two operations wins is left open",
+                                         "appending unused sibling hashes to a valid proof is not a violation (every claim stays true)",
+                                         "SetSubtreeHeight (dead API) is not exercised"])
